@@ -299,6 +299,8 @@ def generate() -> str:
 
 
 EXTRA_SECTIONS: list = []
+from extract_catalog import section as catalog_section  # M9b / C20
+EXTRA_SECTIONS.append(catalog_section)
 
 
 def main(write: bool = True) -> int:
